@@ -35,14 +35,17 @@ THEOREMS = [
     'CC.C12_rest_output',
     'CC.C12_input_order',
     'CC.C12_output_sample',
-    'CC.C12_sample_is_circuit',
-    'CC.C12_kcl_sample_of_rhs',
-    'CC.C12_element_laws_of_rhs',
+    'CC.C12_sample_rhs',
+    'CC.C12_sample_circuit',
+    'CC.C12_kcl_sample',
+    'CC.C12_element_laws',
+    'CC.C12_kvl_sample',
+    'CC.C12_periodic_steady',
 ]
-OPEN_STATEMENTS = ['CC.C12_sample_rhs_statement', 'CC.C12_kcl_sample_statement', 'CC.C12_element_laws_statement', 'CC.C12_periodic_steady_statement']
+OPEN_STATEMENTS = []
 ASSUMPTIONS = [
     'scipy.signal.lsim returns samples of the exact solution of ẋ = A x + B u for inputs that are linear between grid points, started from x = 0 (its documented first-order-hold method); supported on every case by an independent scipy.linalg.expm evaluation',
-    'the per-sample theorems are algebraic (they hold for every state sample x and input sample u, hence for every integrator); that the augmented system is Kirchhoff\'s laws of the circuit is the open statement shared with C10, covered on every run by the per-sample KCL / element-law oracle',
+    'the per-sample theorems are algebraic (they hold for every state sample x and input sample u, hence for every integrator): C12_sample_circuit proves KCL, KVL and every element law per sample for the model; the per-sample oracle checks the same on the implementation',
     'binary64 arithmetic within 1e-9 relative on the dyadic, well-conditioned instances generated',
 ]
 
